@@ -314,6 +314,13 @@ def r2(ctx):
         # islice(enumeration, start, stop) on a fresh enumeration of the pairs over n
         src = inline(isl.args[0], env)
         ok = isinstance(src, ast.Call) and U(src.func) == "lower_triangular_indices" and [U(a) for a in src.args] == [n]
+    if not ok:
+        # recognised-wrong needs the known shape: one enumeration `lower_triangular_indices(n)` that is skipped / sliced differently.
+        # An enumeration called with other arguments (e.g. started at an offset) is another algorithm: not judged here.
+        enum_calls = [c for c in calls(f.node) if U(c.func) == "lower_triangular_indices"]
+        if not enum_calls or any([U(a) for a in c.args] != [n] or c.keywords for c in enum_calls):
+            raise AnalysisError(f"{f.site()}: the chunk is not taken from `lower_triangular_indices({n})` by skip-and-take; "
+                                f"{[U(c)[:50] for c in enum_calls] or 'no enumeration call'} is not judged by this rule")
     ctx.check("R2", f"{f.site()}::slice-of-one-generator", ok, "consume(g, start) then islice(g, count) on the same generator over n",
               "the chunk is not a contiguous slice (skip start, take count) of one enumeration of the pairs")
     gen = ctx.fn(f"{DC}.lower_triangular_indices")
@@ -337,6 +344,8 @@ def r2(ctx):
         if not ok and isinstance(src, (ast.GeneratorExp, ast.ListComp)) and len(src.generators) == 1 and not src.generators[0].ifs and U(src.generators[0].iter) == f"range({i})":
             jv = U(src.generators[0].target)
             ok = U(src.elt).replace(" ", "") == f"({i},{jv})"
+    if not ok and not (len(b) == 1 and isinstance(b[0], ast.For)):
+        raise AnalysisError(f"{gen.site()}: the pair enumeration is not a `for i in range(n)` loop over rows; another enumeration algorithm is not judged by this rule")
     ctx.check("R2", f"{gen.site()}::enumeration", ok, "for i in range(n): for j in range(i): yield i, j  (each pair i > j once)",
               "the pair enumeration is not `for i in range(n): for j in range(i): yield i, j`")
     cs = ctx.fn(f"{DC}.consume")
